@@ -233,13 +233,17 @@ Definition np_upper (s : bytes) : bytes := map (fun c => if (97 <=? c) && (c <=?
    ROther = function call / string literal / backticks / a ':' *)
 Inductive nroute := RSimple | RExpr | ROther.
 Definition np_opchars : bytes := [43; 45; 42; 47; 60; 62; 61; 33; 38; 124].   (* +-*/<>=!&| *)
-Definition np_route (text : bytes) : nroute :=
-  if np_has 40 text || np_has 41 text || np_has 96 text || np_has 58 text
+(* [colon]: a ':' or a back quote anywhere in the text puts the item outside this model (NQ lines).  rsql's
+   own tests do not look at either character; Model/SelectItems.v reads such texts through the
+   "field:alias" spec split and uses [np_route_c false] *)
+Definition np_route_c (colon : bool) (text : bytes) : nroute :=
+  if np_has 40 text || np_has 41 text || (colon && (np_has 96 text || np_has 58 text))
      || match text with c :: _ => (c =? 39) || (c =? 34) | [] => true end then ROther
   else if existsb (fun c => np_has c text) np_opchars
           || contains (np_upper text) [65; 78; 68] || contains (np_upper text) [79; 82]
           || has_prefix (np_upper (np_trim text)) [67; 65; 83; 69] then RExpr
   else RSimple.
+Definition np_route (text : bytes) : nroute := np_route_c true text.
 
 Record nitem := { ni_path : bytes; ni_alias : option bytes }.
 (* info.outputName: the alias, else the text of the item itself *)
